@@ -170,6 +170,78 @@ func postRun(script []string, w *bufio.Writer) {
 	}
 }
 
+// postClosedObjectStart: an operation started on an object that was closed, after its descriptor number went to another open
+// descriptor (here: a pipe end), is not an operation in flight: its callback reports the error, Pending() does not count it
+// (RunPending would otherwise wait for something nobody can complete) and the descriptor that now owns the number is left alone.
+func postClosedObjectStart() (bool, string) {
+	runtime.LockOSThread()
+	defer runtime.UnlockOSThread()
+	ioc, err := sonic.NewIO()
+	if err != nil {
+		return true, ""
+	}
+	defer ioc.Close()
+	for _, kind := range []string{"tcp-read", "tcp-write", "tcp-readall"} {
+		ln, err := net.Listen("tcp", "127.0.0.1:0")
+		if err != nil {
+			return true, ""
+		}
+		conn, err := sonic.Dial(ioc, "tcp", ln.Addr().String())
+		if err != nil {
+			ln.Close()
+			return true, ""
+		}
+		peer, _ := ln.Accept()
+		fd := conn.RawFd()
+		_ = conn.Close()
+		var p [2]int
+		if err := syscall.Pipe2(p[:], syscall.O_NONBLOCK); err != nil {
+			ln.Close()
+			return true, ""
+		}
+		cleanup := func() {
+			syscall.Close(p[0])
+			syscall.Close(p[1])
+			if peer != nil {
+				peer.Close()
+			}
+			ln.Close()
+		}
+		if p[0] != fd {
+			cleanup() // the number was not reused by the read end: not this trial's subject
+			continue
+		}
+		before := ioc.Pending()
+		calls := 0
+		var gotErr error
+		cb := func(err error, n int) { calls++; gotErr = err }
+		buf := make([]byte, 8)
+		switch kind {
+		case "tcp-read":
+			conn.AsyncRead(buf, cb)
+		case "tcp-readall":
+			conn.AsyncReadAll(buf, cb)
+		case "tcp-write":
+			conn.AsyncWrite(buf, cb)
+		}
+		pend := ioc.Pending()
+		_, _ = syscall.Write(p[1], []byte{0x42})
+		for i := 0; i < 10; i++ {
+			_ = ioc.RunOneFor(2 * time.Millisecond)
+		}
+		var one [4]byte
+		n, _ := syscall.Read(p[0], one[:])
+		cleanup()
+		if kind != "tcp-write" && (pend != before || calls != 1 || gotErr == nil || n != 1 || one[0] != 0x42) {
+			return false, fmt.Sprintf("%s on a closed connection whose descriptor number now belongs to a pipe: Pending() %d -> %d right after the call, callback ran %d time(s) err=%v; the byte written into the pipe afterwards: read %d byte(s) (want: an error reported, nothing in flight, the pipe untouched)", kind, before, pend, calls, gotErr, n)
+		}
+		if kind == "tcp-write" && (ioc.Pending() != before || calls != 1) {
+			return false, fmt.Sprintf("%s on a closed connection whose descriptor number now belongs to a pipe: Pending() %d -> %d, callback ran %d time(s) err=%v", kind, before, ioc.Pending(), calls, gotErr)
+		}
+	}
+	return true, ""
+}
+
 func postDirect(seed uint64, tier string, args []string, w *bufio.Writer) {
 	// RunPending while other goroutines post and one more operation is in flight: it returns only when nothing is
 	rp := 3000
@@ -179,6 +251,9 @@ func postDirect(seed uint64, tier string, args []string, w *bufio.Writer) {
 	rpOK, rpWhy := postRunPending(rp, 4, 25)
 	if !rpOK {
 		fmt.Fprintf(w, "DIRECT-FAIL key=post.%s mode=runpending rounds=%d posters=4 per=25\n", rpWhy, rp)
+	}
+	if ok, why := postClosedObjectStart(); !ok {
+		fmt.Fprintf(w, "DIRECT-FAIL key=post.runpending-closed-object-start %s\n", why)
 	}
 	if len(args) > 0 && args[0] == "only=runpending" {
 		fmt.Fprintf(w, "DIRECT-STAT {\"post_runpending_rounds\": %d, \"post_runpending_ok\": %v}\n", rp, rpOK)
